@@ -379,6 +379,11 @@ Definition obs_eqb (a b : obs) : bool := list_eqb ores_eqb a b.
    - a successful push reports the descriptors of what was pushed and the
      pushed annotations (plus the creation time); a push may fail only for an
      envelope already stored or an invalid created annotation. *)
+(* the caps the property speaks of, as literals: the oracle does not follow a
+   change of the constants in /repo (the model does, through Generated.v) *)
+Definition ocapM : Z := 4194304.     (* 4 MiB  *)
+Definition ocapB : Z := 33554432.    (* 32 MiB *)
+
 Definition add_absent (rs : state) (e : entry) : state :=
   match lookup_dg rs (d_dg (e_d e)) with Some _ => rs | None => e :: rs end.
 
@@ -415,11 +420,11 @@ Definition expected (rs : state) (q : desc) : list item :=
   map item_of (filter (sig_entry_for q) rs).
 
 Definition oversize_ref (q : desc) (e : entry) : bool :=
-  is_sigmt (d_mt (e_d e)) && refers q e && (capM <? d_sz (e_d e))%Z.
+  is_sigmt (d_mt (e_d e)) && refers q e && (ocapM <? d_sz (e_d e))%Z.
 
 Definition log_ok (rs : state) (lg : list N) : bool :=
   forallb (fun dg => match lookup_dg rs dg with
-                     | Some e => (d_sz (e_d e) <=? capM)%Z
+                     | Some e => (d_sz (e_d e) <=? ocapM)%Z
                      | None => true end) lg.
 
 Definition created_ok (pa a : ann) : bool :=
@@ -447,7 +452,7 @@ Definition rcheck (rs : state) (o : op) (r : ores) : bool :=
       log_ok rs lg &&
       (if e =? 0 then negb over && perm_eqb item_eqb (expected rs q) its else over)
   | OpFetch d, RFetch e b bd lg =>
-      if negb (is_sigmt (d_mt d)) || (capM <? d_sz d)%Z then
+      if negb (is_sigmt (d_mt d)) || (ocapM <? d_sz d)%Z then
         negb (e =? 0) && list_eqb N.eqb lg []
       else match fetch_all rs d with
            | None => negb (e =? 0) && list_eqb N.eqb lg [d_dg d]
@@ -455,7 +460,7 @@ Definition rcheck (rs : state) (o : op) (r : ores) : bool :=
                if negb (parsed (d_mt d) c) then negb (e =? 0) && list_eqb N.eqb lg [d_dg d]
                else match blobs_of (d_mt d) c with
                     | [x] =>
-                        if (capB <? d_sz x)%Z then negb (e =? 0) && list_eqb N.eqb lg [d_dg d]
+                        if (ocapB <? d_sz x)%Z then negb (e =? 0) && list_eqb N.eqb lg [d_dg d]
                         else match fetch_all rs x with
                              | None => negb (e =? 0) && list_eqb N.eqb lg [d_dg d; d_dg x]
                              | Some _ => (e =? 0) && (b =? d_dg x) && desc_eqb bd x &&
